@@ -265,6 +265,16 @@ def check_listener_management(ctx, tu, cls, rule, inv_key='CallbackListBase::ope
                 if f.nodes[objn]['cls'] == 'CXXOperatorCallExpr' and f.nodes[objn].get('op') == '[]':
                     oa = f.nodes[objn]['args']
                     okobj = last_field(path(f, oa[0])) == 'eventCallbackListMap' and arg_is_param(f, oa[1], f.params[0]['id'])
+                elif f.is_call(objn):
+                    # a private helper that hands back `eventCallbackListMap[<its parameter>]`, called with the event
+                    for g in f.callee_fns(objn):
+                        rets = g.return_nodes()
+                        ca = f.call_args(objn)
+                        if len(rets) == 1 and g.params and len(ca) == 1 and arg_is_param(f, ca[0], f.params[0]['id']):
+                            rv = g.strip_all_casts(g.kids(rets[0])[0])
+                            if g.nodes[rv]['cls'] == 'CXXOperatorCallExpr' and g.nodes[rv].get('op') == '[]':
+                                ga = g.nodes[rv]['args']
+                                okobj = last_field(path(g, ga[0])) == 'eventCallbackListMap' and arg_is_param(g, ga[1], g.params[0]['id'])
                 args = f.call_args(n)
                 want = [p['id'] for p in f.params[1:]]
                 got = [arg_var(f, a) for a in args]
